@@ -216,6 +216,27 @@ fn table() -> &'static Result<BTreeMap<Op, String>, String> {
     })
 }
 
+/// run the sequence in a fresh child process (`--replay cache`)
+fn fresh_process_verdict(c: &Case) -> Option<Verdict> {
+    let exe = std::env::current_exe().ok()?;
+    let f = std::env::temp_dir().join(format!("bv-c15-case-{}-{:x}.json", std::process::id(), bvcommon::runner::hash_str(&format!("{:?}{:?}", c.ops, std::thread::current().id()))));
+    std::fs::write(&f, serde_json::to_string(c).ok()?).ok()?;
+    let out = std::process::Command::new(&exe).arg("C15").arg("--replay").arg("cache").arg(&f).env_remove("BVERIF_ANNOUNCE").output().ok();
+    let _ = std::fs::remove_file(&f);
+    let out = out?;
+    if !out.status.success() {
+        return None;
+    }
+    let v: serde_json::Value = serde_json::from_slice(&out.stdout).ok()?;
+    let detail = v["detail"].as_str().unwrap_or("").to_string();
+    Some(match v["outcome"].as_str().unwrap_or("") {
+        "pass" => Verdict::pass(true),
+        "fail" => Verdict::fail(detail),
+        "skip" => Verdict::skip(detail),
+        _ => Verdict::inconclusive(detail),
+    })
+}
+
 pub struct Transparent;
 
 impl Layer for Transparent {
@@ -236,6 +257,13 @@ impl Layer for Transparent {
             }
         }
         out
+    }
+    fn eval_for_shrink(&self, c: &Case) -> Verdict {
+        // from a clean state: a fresh process runs exactly this sequence
+        match fresh_process_verdict(c) {
+            Some(v) => v,
+            None => self.eval(c),
+        }
     }
     fn eval(&self, c: &Case) -> Verdict {
         announce("cache", &serde_json::to_string(c).unwrap_or_default());
